@@ -718,7 +718,7 @@ def case(ctx, rng, idx, state):
 if __name__ == "__main__":
     harness.main(
         PROP, "exploration", case, setup_fn=setup,
-        tiers=dict(quick=dict(cases=4000, shards=8, time=240), thorough=dict(cases=40000, shards=16, time=540)),
+        tiers=dict(quick=dict(cases=4000, shards=8, time=900), thorough=dict(cases=40000, shards=16, time=3000)),
         rule="sorted arrays of 1-5 multiplets of 1-6 bands (inner gaps 0, 0.1, 0.5, 0.9 of the threshold incl. chains wider "
              "than the threshold, outer gaps 1.1-1000 thresholds, integer arrays with exact gap == thresh ties, thresh 0 and "
              "the default), windows with edges between bands, inside multiplets, on bands, infinite, empty or inverted; "
